@@ -937,8 +937,21 @@ def _schedule(prop, tier, seed):
                       Case("c14%s_empty" % mkk, ["abc", ""], mk=mkk), Case("c14%s_long" % mkk, ["abcd", "bc", "cd"], mk=mkk)]
             cases += seeded_cases("c14" + mkk, seed, 1 if quick else 6, mkk)
 
+        # is_match / earliest on prefilter-accelerated searchers, both anchorings (an anchored search must not
+        # consult the prefilter at all: seeded change C14c hides there), patterns of different lengths
+        pf_cases = [Case("c14lf_pf_r1b", ["abcq", "cdq", "efq", "ghq"], mk="lf", pf=True),
+                    Case("c14std_pf_s1", ["abc", "ab"], mk="std", pf=True)]
+        if not quick:
+            pf_cases += [Case("c14ll_pf_r2", ["abcz", "bz", "cq"], mk="ll", pf=True), Case("c14std_pf_mm", ["foo"], mk="std", pf=True),
+                         Case("c14lf_pf_r2ci", ["abc", "ab"], mk="lf", pf=True, ci=True)]
+        cases += pf_cases
+
         def mk(facts):
             hs = [h_ismatch(prop, c, facts, "dfa", n=6 if quick else 8, an=EITHER) for c in cases]
+            for h in hs:
+                if h.case in pf_cases:
+                    h.stubs = list(STUB_PF)
+                    h.meta["prefilter"] = facts[h.case.name]["prefilter"][:120]
             for c in cases:
                 if "empty" in c.name or "basic" in c.name:
                     if quick and c.mk == "ll":
